@@ -333,6 +333,45 @@ username user1@example.com attributes
  service-type remote-access
  vpn-idle-timeout 60
 `),
+		// the target keeps the aaa-server but gives up its ldap-attribute-map: the reference inside the host line may go, the manually
+		// maintained map and the hand-made group-policy / ACL / pool that only it reaches must stay (seeded change C07-Y1)
+		mk("ldap-attribute-map-given-up", `interface Ethernet0/0
+ nameif inside
+access-list vpn-filter-G1 extended permit ip 10.3.4.8 255.255.255.248 any4
+access-list vpn-filter-G1 extended deny ip any4 any4
+ip local pool pool-G1 10.3.4.8-10.3.4.15 mask 255.255.255.248
+group-policy VPN-group-G1 internal
+group-policy VPN-group-G1 attributes
+ address-pools value pool-G1
+ vpn-filter value vpn-filter-G1
+crypto ca certificate map ca-map-G1 10
+ subject-name attr cn co G1
+tunnel-group VPN-tunnel-G1 type remote-access
+tunnel-group VPN-tunnel-G1 general-attributes
+ authentication-server-group LDAP_KV
+tunnel-group VPN-tunnel-G1 webvpn-attributes
+ authentication aaa certificate
+tunnel-group-map ca-map-G1 10 VPN-tunnel-G1
+aaa-server LDAP_KV protocol ldap
+aaa-server LDAP_KV (inside) host 10.2.8.16
+ ldap-base-dn DC=example,DC=com
+ ldap-scope subtree
+ ldap-login-password *****
+ ldap-attribute-map LDAPMAP
+ldap attribute-map LDAPMAP
+ map-name memberOf Group-Policy
+ map-value memberOf "CN=g-m1,OU=VPN,OU=group,DC=example,DC=com" VPN-group-G1
+`, `crypto ca certificate map ca-map-G1 10
+ subject-name attr cn co G1
+tunnel-group VPN-tunnel-G1 type remote-access
+tunnel-group VPN-tunnel-G1 general-attributes
+ authentication-server-group LDAP_KV
+tunnel-group VPN-tunnel-G1 webvpn-attributes
+ authentication aaa certificate
+tunnel-group-map ca-map-G1 10 VPN-tunnel-G1
+aaa-server LDAP_KV protocol ldap
+aaa-server LDAP_KV host X
+`),
 		// the target has no VPN part at all: everything is removed in an order the device accepts
 		mk("everything-removed", `
 access-list vpn-filter-DRC-0 extended permit ip host 10.3.4.1 10.1.1.0 255.255.255.0
